@@ -279,7 +279,7 @@ pub fn main(ctx: &Ctx) -> i32 {
                         }
                     }
                 }
-                if rng.chance(1, 4000) {
+                if ctx.want_sample() || rng.chance(1, 4000) {
                     ctx.sample(json!({"registered": cfg.names, "request": Value::Object(req.clone()), "expected": format!("{:?}", want), "reply": show(&run.out)}));
                 }
             }
